@@ -10,3 +10,5 @@
 (hist (Plus (i 41) (s abc)) (Int 41) (LE (s 1/0) (i 42)) (LE (i 42) (s 1/0)) (Int 42) (And (b T) (F b1 1 0)) (FluentExp b1 1 0 (L (O o3 0) (O o2 0))) (ObjectExp o2 0) (Forall () (F b0 0 0)) (Plus (s "") (i 43)) (Int 43))
 ; XOr with repeated and complementary arguments
 (hist (FluentExp b0 0 0 (L)) (Not (r 0)) (XOr (r 0) (r 0)) (XOr (r 0) (r 1)) (XOr (r 0) (r 1) (b T)) (XOr) (XOr (r 1)) (XOr (L (r 0) (F x@bool 0 0))))
+; witness of the Int(bool) defect (as found: Int(True) poisons the constant 1 of the environment)
+(hist (IntOfBool T) (Int 1) (Plus (F nb 0 0) (i 1)) (IntOfBool F) (Int 0) (Plus))
